@@ -8,4 +8,6 @@ mkdir -p "$VERIF/bin" "$VERIF/evidence" "$VERIF/replays"
 (cd "$VERIF/tools" && go build -o "$VERIF/bin/vtool" ./vtool)
 # warm the cache: build dawn and its tests' dependencies once
 (cd "$REPO" && go build ./... >/dev/null 2>&1 || true)
+# warm the race-detector build of the packages the race passes need
+(cd "$REPO" && go build -race . ./runner >/dev/null 2>&1 || true)
 echo setup done
